@@ -249,4 +249,61 @@ def k2(ctx, kr):
     kr.stubs = LC.STUB_NOTES
     kr.exhaustive = True
 
-KERNELS = [k1, k2]
+# ---------------------------------------------------------------------------------------------- K3 one arbitrary Unicode scalar in every lexical context
+CONTEXTS = {'in_comment': ('(* ', ' *)'), 'in_string': ("'", "'"), 'in_wstring': ('"', '"'), 'between_tokens': ('a ', ' b'), 'inside_identifier': ('ab', 'cd'), 'after_line_comment': ('// ', '\nx')}
+
+def _k3_job(job):
+    cname, nb = job
+    ctx = _CTX; part = Part()
+    pre, post = CONTEXTS[cname]
+    u = [z3.BitVec('u%d' % i, 8) for i in range(nb)]
+    valid, _ = LC.utf8_valid(u)
+    # exactly one character of nb bytes
+    lead = {1: z3.ULT(u[0], 0x80), 2: z3.And(z3.UGE(u[0], 0xC2), z3.ULE(u[0], 0xDF)), 3: z3.And(z3.UGE(u[0], 0xE0), z3.ULE(u[0], 0xEF)), 4: z3.And(z3.UGE(u[0], 0xF0), z3.ULE(u[0], 0xF4))}[nb]
+    allb = list(pre.encode()) + u + list(post.encode()); N = len(allb)
+    M, entry, b, L, toks, LM = LC.tokenize_machine(ctx, N, bytes_=allb)
+    M.base_constraints = [valid, lead]
+    def on_path(M, pr):
+        part.paths += 1
+        if pr.inconclusive: part.inconc('%s: %s' % (cname, pr.inconclusive)); return
+        s = z3.Solver(); s.add(valid, lead, *pr.pc)
+        part.nontrivial += 1
+        def wit(role, what):
+            t = time.time(); r = s.check(); part.solver_s += time.time() - t; part.queries += 1
+            if r != z3.sat: return
+            m = s.model(); data = bytes(x if isinstance(x, int) else m.eval(x, True).as_long() for x in allb)
+            part.add(role, '%s (witness %r)' % (what, data.decode('utf-8', 'replace')), {'source_bytes': list(data)}, ('tokens_total', (data,)))
+        if pr.panic: wit('C14/K3/%s/panic' % cname, 'tokenize panics: ' + pr.panic.msg[:50]); return
+        res = pr.result
+        spans = [(simp(t.f[1].f[0]), simp(t.f[1].f[1])) for t in res.f[0].items]
+        for d in res.f[1].items:
+            sp = _find_span(M, d)
+            if sp is None: part.inconc('diagnostic without span'); return
+            spans.append((simp(sp.f[0]), simp(sp.f[1])))
+        spans.sort(); pos = 0; okk = True
+        for a, e in spans:
+            if a != pos or e <= a: okk = False
+            pos = e
+        if pos != N or not okk: wit('C14/K3/%s/not-tiled' % cname, 'tokens and error spans do not cover every byte exactly once: %s' % spans); return
+        p0 = len(pre.encode())
+        inside = [(a, e) for a, e in spans for p in (a, e) if p0 < p < p0 + nb]
+        if inside: wit('C14/K3/%s/span-inside-character' % cname, 'a token or error span boundary falls inside the multi-byte character: %s' % inside)
+        if len(part.samples) < 1: part.samples.append({'context': cname, 'character_bytes': nb, 'spans': spans})
+    M.explore(entry, on_path)
+    part.queries += M.stats['smt']; part.encoded = set(M.encoded); part.models = set(M.models_used)
+    return part
+
+@kernel('K3 lexer.any_scalar_in_every_context')
+def k3(ctx, kr):
+    global _CTX
+    _CTX = ctx
+    kr.bounds = ('one arbitrary Unicode scalar value (1, 2, 3 or 4 bytes, all bytes symbolic) placed inside a comment, inside a single and a double quoted string, between two tokens, inside an identifier and after a line comment '
+                 '(%s): lexer::tokenize does not panic, tokens and error spans tile the text, no boundary falls inside the character' % ', '.join('%r' % (v,) for v in CONTEXTS.values()))
+    for part in par_map(_k3_job, [(c, nb) for c in CONTEXTS for nb in (1, 2, 3, 4)]): merge_part(kr, part)
+    P = ctx.program()
+    kr.functions = fn_paths(P, getattr(kr, '_enc', set())) + ['ironplc-parser::<TokenType as Logos>::lex (lifted)']
+    kr.stubs = LC.STUB_NOTES
+    kr.exhaustive = True
+    kr.outside = ['several non-ASCII characters in a row; other contexts']
+
+KERNELS = [k1, k2, k3]
